@@ -215,15 +215,6 @@ def genDbContent (l : Layout) (size : Nat) (bootstrapFirst : Bool) : Gen DbConte
   let att ← paginate (attrLen l) attRows (← Gen.prob 1 2)
   return { cls, att, heaps := rels.toList.filterMap (·.heap), raws := rels.toList.filterMap (·.raw) }
 
-/-- does the tool's v16 auto-detection see attnum 1..5 in the first five live rows?  (On the 12–15 layouts the
-bytes it probes are the high half of attstattarget, never 1..5.) -/
-def autoDetectOK (l : Layout) (d : DbContent) : Bool :=
-  match l with
-  | .v16 =>
-    let live := d.att.live
-    live.length ≥ 5 && ((live.take 5).zipIdx.all fun (a, i) => a.num == (i : Int) + 1)
-  | _ => true
-
 def genCluster (size : Nat) : Gen Cluster := do
   let pgVersion ← Gen.oneOf [12, 13, 14, 15, 16, 16, 16]
   let l : Layout := if pgVersion ≥ 16 then .v16 else if pgVersion ≥ 14 then .v14 else .v12
